@@ -15,15 +15,65 @@ import (
 
 const chanGetTimeout = 6 * time.Millisecond
 
-func chanDoGet(c *Channel, timeout time.Duration) []int {
-	ctx, cancel := context.WithTimeout(context.Background(), timeout)
-	defer cancel()
-	v, err := c.Get(ctx)
-	if err == nil {
-		return []int{0, v.(int)}
+// chanDoGet performs one Get. With quiescent=true (sequential scenarios) an empty attempt is observed WITHOUT a deadline:
+// the Get runs in a goroutine; if it has not returned once every goroutine of the package is parked (so at least one
+// attempt found nothing and the Get is waiting for its next poll), its context is cancelled and the result is REmpty.
+// With quiescent=false (concurrent scenarios) a generous deadline is used instead.
+func chanDoGet(c *Channel, timeout time.Duration) []int { return chanDoGetMode(c, timeout, false) }
+
+func chanDoGetMode(c *Channel, timeout time.Duration, quiescent bool) []int {
+	if !quiescent {
+		ctx, cancel := context.WithTimeout(context.Background(), timeout)
+		defer cancel()
+		v, err := c.Get(ctx)
+		if err == nil {
+			return []int{0, v.(int)}
+		}
+		if err == context.DeadlineExceeded {
+			return []int{1}
+		}
+		return []int{2}
 	}
-	if err == context.DeadlineExceeded {
+	ctx, cancel := context.WithCancel(context.Background())
+	defer cancel()
+	type res struct {
+		v   interface{}
+		err error
+	}
+	ch := make(chan res, 1)
+	go func() { v, err := c.Get(ctx); ch <- res{v, err} }()
+	select {
+	case r := <-ch:
+		if r.err == nil {
+			return []int{0, r.v.(int)}
+		}
+		return []int{2}
+	case <-time.After(300 * time.Microsecond):
+	}
+	for i := 0; i < 50; i++ {
+		if quiesce(150*time.Microsecond, 100*time.Millisecond) {
+			break
+		}
+	}
+	select {
+	case r := <-ch:
+		if r.err == nil {
+			return []int{0, r.v.(int)}
+		}
+		return []int{2}
+	default:
+	}
+	cancel()
+	r := <-ch
+	if r.err == nil {
+		return []int{0, r.v.(int)}
+	}
+	if r.err == context.Canceled && c.ctx.Err() == nil {
 		return []int{1}
+	}
+	if r.err == context.Canceled {
+		// both the caller's context and the Channel are cancelled: the Channel was closed meanwhile
+		return []int{2}
 	}
 	return []int{2}
 }
@@ -69,7 +119,7 @@ func chanK1Case(h *hctx, id int) {
 	var ops, outs [][]int
 	next := 1 + id*1000
 	srcClosed := false
-	queued := 0   // values we believe are still in the source (to bias towards non-empty Gets)
+	queued := 0 // values we believe are still in the source (to bias towards non-empty Gets)
 	closedAt := -1
 	for k := 0; k < nops; k++ {
 		r := h.rng.Intn(100)
@@ -99,7 +149,7 @@ func chanK1Case(h *hctx, id int) {
 				}
 				continue
 			}
-			o := chanDoGet(c, chanGetTimeout)
+			o := chanDoGetMode(c, chanGetTimeout, true)
 			ops = append(ops, []int{0})
 			outs = append(outs, o)
 			if o[0] == 0 {
@@ -258,7 +308,7 @@ func chanK2Case(h *hctx, id int) {
 				inv := tick()
 				switch kind {
 				case 0:
-					logop(inv, []int{0}, chanDoGet(c, 8*time.Millisecond))
+					logop(inv, []int{0}, chanDoGet(c, 40*time.Millisecond))
 				case 1:
 					ctx, cancel := context.WithCancel(context.Background())
 					cancel()
